@@ -27,7 +27,7 @@ def run(ctx):
                   ("c10-4", [("A4", ["A"], (0, 0, 0, 4))], 5)]
     table, res, files, cov, nrows, nevents = [], [], [], {}, 0, 0
     for (tag, parts, per) in stages:
-        t = ing.mc_and_gen(ctx, [(n, f, a, False) for (n, f, a) in parts])
+        t = ing.mc_and_gen(ctx, [(n, f, a, False) for (n, f, a) in parts], lite=ctx.quick)
         tp = os.path.join(ctx.scratch, "table-%s.ndjson" % tag)
         ing.write_table(tp, t)
         n = sum(len(o["reqs"]) for o in t)
@@ -69,7 +69,7 @@ def run(ctx):
     for k in sorted(got):
         ctx.sample({"kind": k, **got[k]})
     ctx.assumptions += [
-        "exhaustive over the abstract tables of IngressMC (constants in mc_runs); the concrete requests are %s seeded representatives per row" % " / ".join(str(p) for (_, _, p) in stages),
+        "exhaustive over the abstract tables of IngressMC (quick: constant Lite = TRUE, thorough: FALSE and four-route configurations); the concrete requests are %s seeded representatives per row" % " / ".join(str(p) for (_, _, p) in stages),
         "memory queue backend; in-process production handler (app.VerifBoot), no TLS, no rate limit, no adaptive backpressure",
         "one header name and one query key per configuration carry the header / query criteria",
         "request classes whose reading is open are not emitted: lower-case request methods, empty Host, %2F in a segment, malformed query strings",
